@@ -298,3 +298,20 @@ func NRIResources() *rapid.Generator[*api.LinuxResources] {
 		return r
 	})
 }
+
+// Uniform draws an index in [0,n) approximately uniformly (rapid's integer and SampledFrom
+// generators are deliberately biased towards small values; class coverage needs uniformity).
+// n must be <= 4096. Shrinks towards 0.
+func Uniform(t *rapid.T, label string, n int) int {
+	v := 0
+	for i := 0; i < 12; i++ {
+		v <<= 1
+		if rapid.Bool().Draw(t, label) {
+			v |= 1
+		}
+	}
+	return v % n
+}
+
+// Pick draws one element of a slice approximately uniformly.
+func Pick[T any](t *rapid.T, label string, s []T) T { return s[Uniform(t, label, len(s))] }
